@@ -285,6 +285,10 @@ void fb_read_bin(fb_t a, const uint8_t *bin, size_t len) {
 
 		bn_read_bin(t, bin, len);
 
+		if (bn_bits(t) > RLC_FB_BITS) {
+			RLC_THROW(ERR_NO_VALID);
+		}
+
 		fb_copy(a, t->dp);
 	}
 	RLC_CATCH_ANY {
